@@ -266,7 +266,14 @@ def _gen(rng, kind):
         pts = [_ipt(rng, nd, 6) for _ in range(n)]
         if n > 2 and rng.random() < 0.3:
             pts[1] = pts[0]
-        case = {"kind": kind, "nd": nd, "p": list(_ipt(rng, nd, 6)), "points": [list(p) for p in pts],
+        pq = list(_ipt(rng, nd, 6))
+        if rng.random() < 0.25:
+            # the whole configuration far from the origin (UTM-like coordinates): distances
+            # are translation invariant, |a|^2 + |b|^2 - 2 a.b style formulas are not
+            sh = [int(v) for v in rng.integers(-3, 4, size=nd) * 10 ** int(rng.integers(5, 8))]
+            pts = [tuple(int(a + b) for a, b in zip(q, sh)) for q in pts]
+            pq = [int(a + b) for a, b in zip(pq, sh)]
+        case = {"kind": kind, "nd": nd, "p": pq, "points": [list(p) for p in pts],
                 "max_diag": bool(rng.random() < 0.5)}
     elif kind in ("pt-poly", "seg-poly"):
         return _poly_case(rng, kind)
@@ -318,6 +325,12 @@ def floor(tier):
                 "end": [[1, 0, 0], [1, 2, 0], [3, 4, 1], [2, 2, 3]]})
     out.append({"kind": "pt-pt", "nd": 3, "p": [1, 2, 2], "points": [[0, 0, 0], [1, 2, 2], [4, 6, 2]], "max_diag": True})
     out.append({"kind": "pt-pt", "nd": 2, "p": [0, 0], "points": [[3, 4]], "max_diag": False})
+    out.append({"kind": "pt-pt", "nd": 3, "p": [3000001, -2000000, 5000002],
+                "points": [[3000000, -2000000, 5000000], [3000001, -2000002, 5000004],
+                           [3000000, -2000000, 5000000], [3000004, -1999997, 5000000]],
+                "max_diag": False})
+    out.append({"kind": "pt-pt", "nd": 2, "p": [50000003, 4], "points": [[50000000, 0],
+                [50000000, 0], [50000006, 8]], "max_diag": True})
     # polygons: unit-ish square in z=0, L-shape in an oblique plane
     sq = [[0, 0, 0], [4, 0, 0], [4, 4, 0], [0, 4, 0]]
     out.append({"kind": "pt-poly", "poly": sq, "nonconvex": False,
@@ -553,7 +566,12 @@ def _seg_set(case, mon, D, state):
 
 def _pt_pt(case, mon, D, state):
     p, P = case["p"], case["points"]
-    sc = _scale([p] + P)
+    allp = np.array([p] + P, dtype=float)
+    # scale = extent of the configuration (not the magnitude of the coordinates): integer
+    # coordinates up to 1e8 are exact floats and so are their differences
+    sc = max(1.0, float(np.max(np.ptp(allp, axis=0))))
+    if float(np.max(np.abs(allp))) > 1e4:
+        mon.count("pointsets_far_from_origin")
     got = np.asarray(D.point_pointset(np.array(p, dtype=float), _np(P)))
     if got.shape != (len(P),):
         mon.violation("point_pointset:shape", {"got": list(got.shape)})
